@@ -249,6 +249,7 @@ def main(argv=None):
     ap.add_argument("--part", action="append")
     ap.add_argument("--procs", type=int)
     ap.add_argument("--no-evidence", action="store_true")
+    ap.add_argument("--all", action="store_true", help="triage: report every shard's violation, not one per bucket")
     a = ap.parse_args(argv)
     pid = a.pid.upper()
     seed = int(os.environ.get("VERIF_SEED", "1") or 1)
@@ -302,7 +303,7 @@ def main(argv=None):
                         flags.add(fl)
             else:  # fixed: suppresses nothing
                 if failed is not None:
-                    violations.append({"part": wit["part"], "relation": failed.relation,
+                    violations.append({"part": wit["part"], "relation": failed.relation + "@" + kf["id"],
                                        "detail": f"fixed finding {kf['id']} is back: {failed.detail}", "case": wit["case"]})
         # ---- regression tier ------------------------------------------------------------------
         rdir = os.path.join(HERE, "regressions", pid)
@@ -318,7 +319,7 @@ def main(argv=None):
                 try:
                     _replay_case(mod, rec, ctx)
                 except Violation as v:
-                    violations.append({"part": rec["part"], "relation": v.relation,
+                    violations.append({"part": rec["part"], "relation": v.relation + "@" + fn,
                                        "detail": f"regression {fn}: {v.detail}", "case": rec["case"]})
     except Exception:
         traceback.print_exc()
@@ -378,7 +379,7 @@ def main(argv=None):
     # bucket violations by (part, relation); report smallest of each bucket
     buckets = {}
     for v in violations:
-        key = (v["part"], v["relation"])
+        key = (v["part"], v["relation"]) if not a.all else (v["part"], v["relation"], chash(v["case"]))
         if key not in buckets or len(canon(v["case"])) < len(canon(buckets[key]["case"])):
             buckets[key] = v
     for v in buckets.values():
